@@ -349,6 +349,7 @@ class Sim:
         self.data_files = dict(data_files or {})
         self.const_only_blocks = []     # source lines of always @(*) blocks with an empty implicit event list
         self.comb_cyclic = False
+        self.self_triggering = 0
         self._compile(lenient_const_blocks)
         self._initial()
         self.reset()
@@ -426,10 +427,22 @@ class Sim:
             if kind == "assign":
                 body += out
             else:
-                body.append("    q = []; qm = []")
-                body += out
-                body.append("    for _i, _k, _x in q: v[_i] = (v[_i] & _k) | _x")
-                body.append("    for _m, _a, _k, _x in qm: _wr(mems[_m], _a, _k, _x)")
+                blk = ["    q = []; qm = []"] + out
+                blk.append("    for _i, _k, _x in q: v[_i] = (v[_i] & _k) | _x")
+                blk.append("    for _m, _a, _k, _x in qm: _wr(mems[_m], _a, _k, _x)")
+                rw = sorted(self.idx[x] for x in (rd & wr) if not x.startswith("mem:"))
+                if rw and not cyclic:
+                    # the block reads signals it assigns: its own NBAs re-trigger it (the implicit event list contains
+                    # them) until they are stable
+                    self.self_triggering += 1
+                    tup = "(" + "".join(f"v[{i}], " for i in rw) + ")"
+                    body.append("    for _st in range(200):")
+                    body.append(f"        _o = {tup}")
+                    body += ["    " + l for l in blk]
+                    body.append(f"        if _o == {tup}: break")
+                    body.append("    else: raise RuntimeError('always @(*) block at line %d keeps re-triggering itself')" % ln)
+                else:
+                    body += blk
         if not body:
             body = ["    pass"]
         if cyclic:
